@@ -1,0 +1,49 @@
+//go:build verif
+
+package netty
+
+import "sync/atomic"
+
+// Verification hooks: compiled only with the "verif" build tag.
+// They add observation points, never behaviour.
+
+// VerifHook is called at every verifPoint of a channel when it is non-nil.
+var VerifHook func(ch Channel, where string)
+
+func verifPoint(c *channel, where string) {
+	if h := VerifHook; nil != h {
+		h(c, where)
+	}
+}
+
+// VerifChanState is a snapshot of the scheduling-relevant state of a channel.
+type VerifChanState struct {
+	Queued     bool
+	UntilWrite bool
+	Closed     bool
+	Running    bool
+	QueueLen   int
+	QueueCap   int
+	LockFree   bool
+}
+
+// VerifState returns the scheduling-relevant state of a channel created by NewChannel/NewAsyncWriteChannel.
+func VerifState(ch Channel) (st VerifChanState, ok bool) {
+	c, ok := ch.(*channel)
+	if !ok {
+		return st, false
+	}
+	st.Queued = nil != c.writeQueue
+	st.UntilWrite = c.untilWrite
+	st.Closed = !c.IsActive()
+	st.Running = running == loadRunning(c)
+	if st.Queued {
+		st.QueueLen, st.QueueCap = len(c.writeQueue), cap(c.writeQueue)
+	}
+	if st.LockFree = c.writeLock.TryLock(); st.LockFree {
+		c.writeLock.Unlock()
+	}
+	return st, true
+}
+
+func loadRunning(c *channel) int32 { return atomic.LoadInt32(&c.running) }
